@@ -7,13 +7,15 @@
 EXTENDS Sequences, Json, IOUtils, SequencesExt, FiniteSets, TLC
 
 InitCalls == {"holidays_fr", "holidays_us", "country_from_coords", "tz_from_coords", "ctx_from_coords", "easter"}
-Calls == InitCalls \cup {"plain_shared", "plain_clone", "normalize"}
+Calls == InitCalls \cup {"plain_shared", "plain_clone", "normalize", "clone_ctx_switch", "clone_locale_switch", "interleave_exprs"}
 Prog2 == {<<a, b>> : a \in InitCalls, b \in Calls}
 Two   == {<<p, q>> : p \in Prog2, q \in Prog2}
 Three == {<<<<a>>, <<b>>, <<c>>>> : a \in InitCalls, b \in InitCalls, c \in InitCalls}
 Wide  == {<<<<"ctx_from_coords", "plain_shared">>, <<"ctx_from_coords", "plain_clone">>, <<"holidays_fr", "normalize">>,
             <<"tz_from_coords", "easter">>, <<"country_from_coords", "holidays_us">>, <<"easter", "ctx_from_coords">>,
             <<"plain_shared", "holidays_fr">>, <<"plain_clone", "tz_from_coords">>>>}
-ASSUME ndJsonSerialize(IOEnv.OUT, SetToSeq(Two \cup Three \cup Wide))
-ASSUME PrintT(<<"COUNTS", Cardinality(Two), Cardinality(Three), Cardinality(Wide)>>)
+\* many threads making the same first use at once (a table published before it is complete shows here)
+Crowd == {[i \in 1..12 |-> <<c>>] : c \in InitCalls} \cup {[i \in 1..12 |-> <<c, "clone_ctx_switch">>] : c \in {"holidays_us", "holidays_fr"}}
+ASSUME ndJsonSerialize(IOEnv.OUT, SetToSeq(Two \cup Three \cup Wide \cup Crowd))
+ASSUME PrintT(<<"COUNTS", Cardinality(Two), Cardinality(Three), Cardinality(Wide), Cardinality(Crowd)>>)
 =============================================================================
